@@ -44,6 +44,10 @@ def cases(tier, seed):
         out.append(_case(f"numpy:2const:dt=1:{rng}:K={3 if q else 4}", backend="numpy", K=3 if q else 4, range=rng, dt=1, a=0.5, trackers=c2))
         out.append(_case(f"numpy:fixed2+const:dt=1:{rng}:K=3", backend="numpy", K=3, range=rng, dt=1, a=0.5, trackers=[{"kind": "fixed", "L": 2}, {"kind": "const", "min_ratio": 0.5}]))
         out.append(_case(f"numpy:log:dt=1:{rng}:K=4", backend="numpy", K=4, range=rng, dt=1, a=0.5, trackers=[{"kind": "log", "factor": "sym"}]))
+        # a stateful post-step hook (scalar auxiliary data fed back into the state) across tracker interrupts
+        for backend in ("numpy", "numba"):
+            for solver in ("euler", "runge-kutta"):
+                out.append(_case(f"{backend}:{solver}:post-step-hook:1const:dt=1:{rng}:K=4", backend=backend, solver=solver, K=4, range=rng, dt=1, a=0.5, hook=True, trackers=[{"kind": "const", "min_ratio": 0.5}]))
         out.append(_case(f"numpy:arbitrary-schedule:dt=1:{rng}:K=4", backend="numpy", K=4, range=rng, dt=1, a=0.5, trackers=[{"kind": "arbitrary"}]))
         out.append(_case(f"numba:arbitrary-schedule+const:dt=1:{rng}:K=2", backend="numba", K=2, range=rng, dt=1, a=0.5, trackers=[{"kind": "arbitrary", "min_gap": 0.5}, {"kind": "const", "min_ratio": 0.5}]))
         out.append(_case(f"numpy:rk:1const:dt=1:{rng}:K=3", backend="numpy", solver="runge-kutta", K=3, range=rng, dt=1, a=0.5, trackers=c1))
@@ -72,6 +76,8 @@ def scenario_c07(env, cfg):
     env.close("t_final=t_start+steps*dt", t_final, ts + steps * dt, scale=tscale)
     env.prove("|t_final-t_end|<dt", abs(t_final - t_end) < dt)
     env.close("state=steps-fold-one-step-map", r["final"].data[0], H.nfold(r, n))
+    if r["hook"]:
+        env.close("hook-data=number-of-steps", r["hook_data"], n, scale=8)
     env.same("initial-state-object-unmodified", r["init"].data, r["init_data_before"])
     env.prove("returned-state-is-not-the-initial-object", r["final"] is not r["init"])
     calls = r["calls"]
